@@ -63,14 +63,16 @@ Theorem source_term_plus_is_model :
 Proof. exact LehmannGenProofsChi.gen_term_plus_is_model. Qed.
 Print Assumptions source_term_plus_is_model.
 
-(** the call operators *)
+(** the call operators.  The statement list of TwoParticleGF::operator()(z1,z2,z3) is tied up to [LehmannGenEquiv.vequiv] (same
+    value returned by the interpreter value_by for every state of the object; until this statement asked for the very same list --
+    [source_gf_value_is_model] below uses the list only through value_by and is unchanged) *)
 Theorem source_tp_eval_is_model :
   forall (K : Type) (NO : numops K),
   gen_tp_eval K NO =
   mk_tp_eval (fun z1 z2 z3 => part_frequencies K (nadd K NO) (nsub K NO) (nmul K NO) (ndiv K NO) (nopp K NO) (abs_gt K NO) (abs_lt K NO) (real_ge K NO) z1 z2 z3)
              (part_perm_slots K (nadd K NO) (nsub K NO) (nmul K NO) (ndiv K NO) (nopp K NO) (abs_gt K NO) (abs_lt K NO) (real_ge K NO)) true
              [PaArg 0; PaArg 1; PaArg 2] [PaArg 0; PaArg 1; PaArg 2; PaReduceResonanceTolerance] AccPlus /\
-  gen_tpgf_value K NO = [VsIf VcVanishing [VsReturnZero] [VsInit; VsForParts AccPlus; VsReturnValue]] /\
+  LehmannGenEquiv.vequiv (gen_tpgf_value K NO) [VsIf VcVanishing [VsReturnZero] [VsInit; VsForParts AccPlus; VsReturnValue]] /\
   (forall n1 n2 n3 : Z, gen_tpgf_matsubara n1 n2 n3 = (2 * n1 + 1, 2 * n2 + 1, 2 * n3 + 1)%Z) /\
   gen_termlist_eval = mk_tl_eval true true AccPlus true.
 Proof.
